@@ -279,6 +279,16 @@ def build_corpus(seed: int, n_templates: int, max_bytes: int) -> List[Dict[str, 
         renamed = re.sub(r"\bt0\b", "t0x", text)
         if renamed != text and rng.random() < 0.5:
             docs.append((name + "~t0x", renamed))
+    # unusual but legal values: keyword-like and dotted names, numeric strings, blank and very long notes
+    docs.append(("keywords", 'Table "table" as "ref" {\n  "ref" int [pk]\n  "note" varchar [note: \'note\']\n  "indexes" int\n'
+                 '  "enum" "enum"\n  indexes {\n    "indexes"\n  }\n}\n\nEnum "enum" {\n  "Table"\n  "Ref"\n}\n\n'
+                 'Table "a.b" {\n  "c.d" int [ref: > "table"."ref"]\n}\n\nTableGroup "TableGroup" {\n  "table"\n}\n'))
+    docs.append(("values", "Table v {\n  a int [default: 123]\n  b varchar [default: '123']\n  c varchar [default: '']\n"
+                 "  d varchar [default: ' ']\n  e float [default: 1.50]\n  f bool [default: false]\n  g int [default: null]\n"
+                 "  h text [note: '" + "long " * 600 + "']\n}\n\nNote blank {\n  ''\n}\n"))
+    # (observation outside the claimed properties: a note consisting of blanks only makes remove_indentation
+    # raise ValueError('min() iterable argument is empty') - C08's business; kept as a failing document)
+    docs.append(("blank-note", "Table w {\n  a int\n  Note: '   '\n}\n"))
     docs.append(("empty", ""))
     docs.append(("only-comment", "// nothing here\n"))
     base = [d for d in docs if "~" not in d[0]]
